@@ -320,23 +320,33 @@ def _model_repr(model, syms):
     return out
 
 
+_CNT_CACHE = {}
+
+
 def _count_axioms(formulas):
     """a cardinality symbol (frames.count_of) that occurs in the VC is >= 0"""
     from . import frames as _fr
+    from .values import tid
 
     names = set()
-    stack, seen = list(formulas), set()
-    while stack:
-        t = stack.pop()
-        if t.get_id() in seen:
-            continue
-        seen.add(t.get_id())
-        if z3.is_quantifier(t):
-            stack.append(t.body())
-        elif z3.is_app(t):
-            if t.num_args() == 0 and t.decl().kind() == z3.Z3_OP_UNINTERPRETED and t.decl().name().startswith("cnt_"):
-                names.add(t.decl().name())
-            stack.extend(t.children())
+    for f in formulas:
+        k = tid(f)
+        if k not in _CNT_CACHE:
+            found = set()
+            stack, seen = [f], set()
+            while stack:
+                t = stack.pop()
+                if t.get_id() in seen:
+                    continue
+                seen.add(t.get_id())
+                if z3.is_quantifier(t):
+                    stack.append(t.body())
+                elif z3.is_app(t):
+                    if t.num_args() == 0 and t.decl().kind() == z3.Z3_OP_UNINTERPRETED and t.decl().name().startswith("cnt_"):
+                        found.add(t.decl().name())
+                    stack.extend(t.children())
+            _CNT_CACHE[k] = found
+        names |= _CNT_CACHE[k]
     return [c >= 0 for (c, _d) in _fr._COUNTS.values() if z3.is_const(c) and c.decl().name() in names]
 
 
